@@ -40,7 +40,7 @@ def obligations(ctx):
     obs = ctx.verify(FUNCTIONS)
     obs = [o for o in obs if "citation" not in o.name]
     from props._shared import typing_state_census
-    return list(obs + literal(ctx)) + [typing_state_census(ctx, 'C11')]
+    return list(obs + ctx.part(literal)) + ctx.part(lambda c_: [typing_state_census(c_, 'C11')], 'typing-state census')
 
 
 def cls_incl(wide, narrow):
